@@ -273,8 +273,14 @@ def step (st : St) (j : Json) : St × List String :=
       | _ => .other
     let proof : Option DPoPProof :=
       if jBool d "parsed" then some ⟨jStr d "p_jkt", jStr d "htm", optStr d "p_htu", ath, jStr d "jti"⟩ else none
-    let c : DPoPCheck := { proof := proof, thumbprint := jStr d "thumb", method := jStr d "method", url := optStr d "s_url",
-                           token := jStr d "token" }
+    -- `thumb_from`: the resource server takes cnf.jkt from the (plain) introspection answer for that token, "" without one
+    let thumb := match optStr d "thumb_from" with
+      | some tk => match introspectPlain st.cfg st.w t tk with
+        | .ok obj => String.ofList ((((objGet obj "cnf").getD "{\"jkt\":\"\"}").toList.drop 8).reverse.drop 2).reverse
+        | _ => ""
+      | none => jStr d "thumb"
+    let c : DPoPCheck := { proof := proof, thumbprint := thumb, method := jStr d "method", url := optStr d "s_url",
+                           token := jStr d "token", fault := jStr j "fault" == "jti-get" }
     let (jti', res) := validateDPoP (fun tk => "ath:" ++ tk) st.cfg.tokenValidity t st.jti c
     let out := match res with
       | .ok .valid => "valid"
